@@ -21,6 +21,10 @@ factory-made class (same __module__ / __qualname__): an overload is its definiti
 (shapes 'multi-inherit', 'nontransitive'): every overload accepts one value vector, and "more specific than" is
 not transitive on the matches (A > B, B > C, A and C incomparable; histogram families:non-transitive-triple) -
 all permutations as in (a)-(c).
+(e) the phase AFTER winner selection: 'picky' parameter types (a PythonType subclass whose check() looks at the class
+and whose convert() turns some VALUES down with ArgumentValueException, as date / identifier / JSON string types do),
+so that the chosen overload's argument conversion fails while other overloads of the layer match - the outcome is
+that ArgumentException in every order (model: Yaql.Resolve.callFinal, driver field "final").
 Oracle (real code alone): ONE outcome - overload or error class, evaluation log, bound arguments - per
 family and call across all enumeration AND registration orders; supported by plain set-backed
 Contexts in subprocesses with different PYTHONHASHSEED / allocation patterns / registration orders."""
@@ -35,7 +39,8 @@ import resolvegen
 import resolvelib as rl
 
 ID = 'C06'
-LEAN_MODULES = ['Yaql.Props.C06', 'Yaql.Props.C06Reg', 'Yaql.Props.C06Ctx', 'Yaql.Props.C06NonTrans']
+LEAN_MODULES = ['Yaql.Props.C06', 'Yaql.Props.C06Reg', 'Yaql.Props.C06Ctx', 'Yaql.Props.C06NonTrans',
+                'Yaql.Props.C06Invoke']
 P = 'Yaql.Props.C06.'
 REQUIRED_THEOREMS = [P + n for n in (
     'perm_invariant', 'spec_perm_invariant', 'old_order_dependent', 'old_tuple_order_dependent',
@@ -50,7 +55,10 @@ REQUIRED_THEOREMS = [P + n for n in (
     'Yaql.Props.C06NonTrans.' + n for n in (
         'moreSpecific_asymm', 'nontransitive_triple_ambiguous', 'Ex.specialization_not_transitive',
         'Ex.nontransitive_every_order', 'Ex.pruned_order_dependent', 'Ex.pruned_agrees_on_transitive',
-        'Ex.resolve_nontransitive_every_order')]
+        'Ex.resolve_nontransitive_every_order')] + [
+    'Yaql.Props.C06Invoke.' + n for n in (
+        'callFinal_perm_invariant', 'conversion_failure_is_final', 'conversion_failure_every_order',
+        'chooseFinal_perm', 'Ex.fallback_order_dependent')]
 TRUSTED = ['resolvelib.ListContext: the enumeration order of a layer is what its get_functions returns',
            'resolvelib.enc_fd / enc_arg (encoding of the real objects for the model)',
            'the reading of exclusive=True: a layer is exclusive for a name when ANY registration of that name in it said '
@@ -122,10 +130,13 @@ def _py(c, nullable=False):
 def mi_type(rng, v):
     """a type the corpus value v satisfies: one of its classes, or a TUPLE of classes holding one of them"""
     c = rng.choice(SUPERS[v])
-    if rng.random() < 0.22:
+    r = rng.random()
+    if r < 0.22:
         t = [c, rng.choice(OTHER)]
         rng.shuffle(t)
         return _py(t)
+    if r < 0.30:
+        return ['picky', c, False]          # convert() turns the G (and the second D) down
     return _py(c)
 
 
@@ -225,8 +236,12 @@ def gen_family(rng):
         fid[0] += 1
         return o
 
+    p_picky = rng.choice([0.0, 0.15, 0.3, 0.45])
+
     def lat_types():
-        return [['py', rng.choice(LAT), False] for _ in range(arity)]
+        # 'picky': a PythonType subclass of the same class whose convert() turns some values down (the second D, ..):
+        # the phase after winner selection
+        return [['picky' if rng.random() < p_picky else 'py', rng.choice(LAT), False] for _ in range(arity)]
 
     layers = []
     for li in range(rng.choice([1, 1, 1, 2, 2, 3])):
@@ -234,7 +249,8 @@ def gen_family(rng):
         fns = []
         if shape == '1below2' and arity >= 2 and li == 0:
             extra = [['py', 'object', False]] * (arity - 2)
-            fns = [overload([['py', 'D', False], ['py', 'D', False]] + extra),
+            fns = [overload([['picky' if rng.random() < p_picky else 'py', 'D', False],
+                             ['picky' if rng.random() < p_picky else 'py', 'D', False]] + extra),
                    overload([['py', 'L', False], ['py', 'Base', False]] + extra),
                    overload([['py', 'Base', False], ['py', 'R', False]] + extra)]
             n = rng.choice([0, 0, 1, 2])
@@ -466,6 +482,14 @@ def run_family(case, drv, rng, tier, hist=None, stats=None):
         by_real[ci].setdefault(label, set()).add(outcome_key(r))
 
     def against(m, r, what, key):
+        if m is not None and 'final' in m:
+            # the phase after choose_overload (Yaql.Resolve.callFinal): a convert() of the chosen overload that turns
+            # the value down is the outcome - ArgumentException, no payload runs
+            failed = r.get('delegate_error') == 'ArgumentException'
+            if (m['final'] == 'conversion-failed') != failed and ('id' in r or failed):
+                fails.append(('mismatch', 'conversion-phase', '%s: real %s, model %s' % (
+                    what, 'ArgumentException out of the chosen delegate' if failed else
+                    'payload %r ran' % r.get('id'), m['final'])))
         if m is None or 'delegate_error' in r:
             return
         m_out = m.get('err', m.get('id'))
@@ -480,7 +504,9 @@ def run_family(case, drv, rng, tier, hist=None, stats=None):
     # ---- (a) enumeration orders on the chain of plain ListContexts
     models = None
     if drv:
-        req = dict(p='Resolve', fams=[dict(layers=enc_layers_in_order(fam, o), calls=[c.enc() for c in calls])
+        picky = rl.picky_rows(fam.fds)
+        extra = dict(picky=picky, rejected=list(rl.REJECTED)) if picky else {}
+        req = dict(p='Resolve', fams=[dict(layers=enc_layers_in_order(fam, o), calls=[c.enc() for c in calls], **extra)
                                       for o in ords])
         req['lat'] = rl.T.lattice()
         models = drv.ask(req)['out']
@@ -546,7 +572,8 @@ def run_family(case, drv, rng, tier, hist=None, stats=None):
     for ci, s in enumerate(seen):
         if hist is not None:
             r0 = next(iter(s.values()))[1]
-            k = 'outcome:' + str(r0.get('err', 'chosen'))
+            k = 'outcome:' + str(r0.get('err', 'conversion-failed-in-chosen-overload' if r0.get('delegate_error') ==
+                                        'ArgumentException' else 'chosen'))
             hist[k] = hist.get(k, 0) + 1
             for label in by_real[ci]:
                 k = 'realization:' + label.split('[')[0].split('/')[0]
@@ -702,7 +729,9 @@ def run(env, res):
                 'factory / lambdas / class functions; distinct = distinct (family, calls); '
                 'plus families over a class graph with multiple inheritance over unrelated classes (LL(L), E(LL, R), U, '
                 'G(D, U)) and tuple-typed parameters in which every overload accepts one value vector, random or built as '
-                'A > B, B > C, A || C (non-transitive specialization; counted in the histogram); '
+                'A > B, B > C, A || C (non-transitive specialization; counted in the histogram); 0-30 % of the class-typed '
+                'parameters are PythonType subclasses whose convert() turns some values down after check() passed '
+                '(conversion failure in the chosen overload); '
                 'non-trivial = some call has >= 2 type-compatible candidates or an ambiguity')
     hist = {}
     if env['replay']:
@@ -784,7 +813,11 @@ LEVEL_TEXT = ('Lean 4 theorems: perm_invariant - the code-shaped model of runner
               'but not transitive (unrelated classes under multiple inheritance, tuple-typed parameters), and three matches '
               'with A > B, B > C, not A > C are Ambiguous in EVERY enumeration order, for every class graph '
               '(nontransitive_triple_ambiguous; witnesses through the whole resolve by decide; pruned_order_dependent: a '
-              'selection that drops candidates dominated by earlier matches is order dependent exactly there); C06Ctx: in every reachable state each context holds '
+              'selection that drops candidates dominated by earlier matches is order dependent exactly there); C06Invoke: '
+              'the phase after choose_overload - the chosen overload\'s argument conversion may fail after its check passed; '
+              'log and FINAL outcome (payload ran / conversion failure of the chosen overload / error) are invariant under '
+              'layer permutations for every conversion behaviour (callFinal_perm_invariant, conversion_failure_every_order; '
+              'fallback_order_dependent: trying the other matches in enumeration order would not be); C06Ctx: in every reachable state each context holds '
               'a SET of definition objects (run_nodup), the layer of a MultiContext is the union of its members whatever the '
               'order of the member list (ownLayerL_members_perm), so calls from it and from its children do not depend on '
               'that order nor on the registration order (resolve_members_perm_invariant, '
